@@ -3,10 +3,12 @@ import ZenonVerif.Lemmas.Proto
 C15 — untrusted peers cannot crash, stall or bloat the node: the logic part (request arithmetic, reply caps,
 size gate, dispatch) of protocol/handler.go. Property theorems only.
 
-The model follows the code as it is. Two clauses of the property are FALSE of the code today and are
-therefore stated with the premises that exclude the failing inputs (`…_partial`) next to kernel-checked
-negative witnesses; the stream `p2p` finds the same inputs on the real handler (monitor "reply ≤ 512
-hashes, no panic").
+The model follows the code as it is. Two clauses of the property used to be false of the code (F7a: a
+`GetBlockHashesMsg` naming an unknown hash panicked; F7b: `GetBlockHashesFromNumberMsg` with
+`Number + Amount ≤ 1` was answered with the whole chain) and were stated as `…_partial` theorems next to
+negative witnesses. Both defects are repaired (d85e958, 99f2642); the theorems below are the full-strength
+statements, and the former counterexamples are now positive theorems. The stream `p2p` sends the same
+requests to the real handler on every run (monitor "reply ≤ 512 hashes, no panic").
 -/
 namespace ZV.C15
 open ZV ZV.Proto
@@ -36,95 +38,37 @@ theorem reply_caps_getBlocks (H : Nat) (hs : List (Option Nat)) (bad : Bool) (l 
   · cases h
     exact gatherBlocks_length _ [] (by decide)
 
-/-- `GetBlockHashesFromNumberMsg`, PARTIAL: the cap holds for every chain below 2^64 − 512 and every
-    request except the three with `Number + Amount ≤ 1`. What is missing: for (0,0), (1,0) and (0,1)
-    the handler asks `GetBlockByNumber(Number+Amount−1)` for height 2^64−1 or 0, gets nil, and then
-    recomputes `Amount` from the frontier *after* the cap (see `reply_caps_fromNumber_false`). -/
-theorem reply_caps_fromNumber_partial (H number amount : Nat) (l : List Nat)
-    (hH : H + Gen.MaxHashFetch < two64) (h2 : 2 ≤ number + amount)
+/-- `GetBlockHashesFromNumberMsg`: for EVERY chain height, every number and every amount — including the
+    requests with `Number + Amount ≤ 1` and every combination in which `Number + Amount − 1` or
+    `last.Height − Number + 1` wraps around — a reply carries at most `MaxHashFetch` hashes. No premise: the
+    amount handed to `GetBlockHashesFromHash` is the capped amount or less (`fromNumberLast_amount_le`). -/
+theorem reply_caps_fromNumber (H number amount : Nat) (l : List Nat)
     (h : onGetHashesFromNumber H number amount = .hashes l) : l.length ≤ Gen.MaxHashFetch := by
   unfold onGetHashesFromNumber at h
-  simp only at h
-  have hc := capHash_le amount
-  have hc2 : 2 ≤ number + capHash amount := by
-    unfold capHash; split
-    · have : Gen.MaxHashFetch = 512 := rfl
-      omega
-    · exact h2
-  cases hb : byHeight H (sub64 (u64 (number + capHash amount)) 1) with
-  | some lh =>
-    simp only [fromNumberLast, hb] at h
+  split at h
+  · cases h
+  · next p hp =>
+    have hp2 := fromNumberLast_amount_le hp
+    have hc := capHash_le amount
     split at h
     · cases h; simp
     · split at h
       · next l' hl =>
         cases h
         rw [List.length_reverse]
-        exact Nat.le_trans (hashesFromHash_length_le H _ _ _ hl) hc
-      · cases h
-      · cases h
-  | none =>
-    simp only [fromNumberLast, hb] at h
-    split at h
-    · cases h; simp
-    · next hlt =>
-      have hnH : number ≤ H := by omega
-      split at h
-      · next l' hl =>
-        cases h
-        rw [List.length_reverse]
-        have hlen := hashesFromHash_length_le H _ _ _ hl
-        have hs : sub64 H number = H - number := sub64_of_le hnH
-        have hu : u64 (H - number + 1) = H - number + 1 := u64_of_lt (by omega)
-        rw [hs, hu] at hlen
-        -- the height asked for is number + capHash amount - 1 ≥ 1, and it is not held, so it is above H
-        have hsum : u64 (number + capHash amount) = number + capHash amount := u64_of_lt (by omega)
-        rw [hsum, sub64_of_le (by omega)] at hb
-        rcases byHeight_eq_none hb with h0 | hgt
-        · omega
-        · omega
+        have := hashesFromHash_length_le H _ _ _ hl
+        omega
       · cases h
       · cases h
 
-set_option maxRecDepth 16384 in
-/-- the negative witnesses for T1: on a chain of 600 momentums the three excluded requests are answered
-    with all 600 hashes. -/
-theorem reply_caps_fromNumber_false :
-    (onGetHashesFromNumber 600 0 0).count = 600 ∧ (onGetHashesFromNumber 600 1 0).count = 600 ∧
-    (onGetHashesFromNumber 600 0 1).count = 600 ∧ Gen.MaxHashFetch < 600 := by decide
-
-/-- …and exactly what they return on every chain: the whole chain, frontier first. -/
-theorem fromNumber_zero_zero_whole_chain (H : Nat) (h1 : 1 ≤ H) (hH : H ≤ makesliceMax) :
-    onGetHashesFromNumber H 0 0 = .hashes (List.range' 1 H).reverse := by
-  have hm : makesliceMax + 1 < two64 := by unfold makesliceMax two64; omega
-  unfold onGetHashesFromNumber
-  have hc : capHash 0 = 0 := by decide
-  have hk : byHeight H (sub64 (u64 (0 + 0)) 1) = none := by
-    have : sub64 (u64 (0 + 0)) 1 = two64 - 1 := by decide
-    rw [this]; unfold byHeight
-    have : ¬ (1 ≤ two64 - 1 ∧ two64 - 1 ≤ H) := by omega
-    rw [if_neg this]
-  simp only [hc, fromNumberLast, hk]
-  have hs : sub64 H 0 = H := by rw [sub64_of_le (Nat.zero_le _)]; rfl
-  have hu : u64 (H + 1) = H + 1 := u64_of_lt (by omega)
-  simp only [hs, hu, Nat.not_lt_zero, if_false]
-  rw [hashesFromHash_some h1 (Nat.le_refl _) hH (by omega)]
-  simp
-
-/-- T1 on the dispatcher: whatever the code, size and body of a message, a reply carries at most
-    `MaxHashFetch` hashes or `MaxBlockFetch` momentums — PARTIAL: under the premise of
-    `reply_caps_fromNumber_partial` for the from-number request. -/
-theorem reply_caps_partial (s : State) (m : Msg)
-    (hH : s.H + Gen.MaxHashFetch < two64)
-    (hF : ∀ n a, m.body = .getHashesFromNumber n a → 2 ≤ n + a) :
-    (handleMsg s m).2.withinCaps := by
+/-- T1 on the dispatcher: whatever the node, the code, the size and the body of a message, a reply carries at
+    most `MaxHashFetch` hashes or `MaxBlockFetch` momentums. No premise. -/
+theorem reply_caps (s : State) (m : Msg) : (handleMsg s m).2.withinCaps := by
   unfold handleMsg
   split
   · trivial
   · generalize kindOf m.code = k
-    revert hF
     generalize m.body = b
-    intro hF
     cases k <;> cases b <;> simp only [handleKind] <;> try trivial
     · split <;> trivial
     · next hash a =>
@@ -137,62 +81,127 @@ theorem reply_caps_partial (s : State) (m : Msg)
       · next l => exact reply_caps_getBlocks _ _ _ _ hr
     · next n a =>
       cases hr : onGetHashesFromNumber s.H n a <;> try trivial
-      · next l => exact reply_caps_fromNumber_partial _ _ _ _ hH (hF n a rfl) hr
+      · next l => exact reply_caps_fromNumber _ _ _ _ hr
       · next l => exact absurd hr (onGetHashesFromNumber_ne_blocks _ _ _ _)
+
+/-- the requests that used to be answered with the whole chain (F7b, repaired in 99f2642), on a chain of 600
+    momentums: (0,0) and (1,0) ask for nothing and get nothing; (0,1) gets one hash, the frontier's. -/
+theorem fromNumber_former_counterexamples :
+    onGetHashesFromNumber 600 0 0 = .hashes [] ∧ onGetHashesFromNumber 600 1 0 = .hashes [] ∧
+    onGetHashesFromNumber 600 0 1 = .hashes [600] ∧ Gen.MaxHashFetch < 600 := by decide
+
+/-- …and on every chain: an amount of 0 is answered with no hash at all, whatever the number. -/
+theorem fromNumber_amount_zero (H number : Nat) (h1 : 1 ≤ H) (hH : H + 1 < two64) :
+    onGetHashesFromNumber H number 0 = .hashes [] := by
+  have hc : capHash 0 = 0 := by decide
+  obtain ⟨p, hp, hp1, hp2, hp3⟩ := fromNumberLast_spec H number (capHash 0) h1
+  rw [hc] at hp hp3
+  have h0 : p.2 = 0 := by omega
+  unfold onGetHashesFromNumber
+  rw [hc, hp]
+  simp only
+  split
+  · rfl
+  · rw [h0, hashesFromHash_some hp1 hp2 hH (Nat.zero_le _)]
+    have : ¬ (p.1 + 1 ≤ 0) := by omega
+    simp [this]
+
+/-- (0, 1) — "one hash from number 0", a height no momentum has — is answered with exactly one hash. -/
+theorem fromNumber_zero_one (H : Nat) (h1 : 1 ≤ H) (hH : H + 1 < two64) :
+    onGetHashesFromNumber H 0 1 = .hashes [H] := by
+  have hm : (1 : Nat) ≤ makesliceMax := by decide
+  have hc : capHash 1 = 1 := by decide
+  have hk : byHeight H (sub64 (u64 (0 + 1)) 1) = none := by
+    have : sub64 (u64 (0 + 1)) 1 = 0 := by decide
+    rw [this]; unfold byHeight; simp
+  have hs : sub64 H 0 = H := by rw [sub64_of_le (Nat.zero_le _)]; rfl
+  have hu : u64 (H + 1) = H + 1 := u64_of_lt hH
+  have hlt : ¬ (H + 1 < 1) := by omega
+  unfold onGetHashesFromNumber
+  simp only [hc, fromNumberLast, hk, currentBlock_some h1, hs, hu, hlt, if_false, Nat.not_lt_zero]
+  rw [hashesFromHash_some h1 (Nat.le_refl _) hH hm]
+  have : ¬ (H + 1 ≤ 1) := by omega
+  simp only [this, if_false]
+  have e1 : H + 1 - 1 = H := by omega
+  have e2 : H + 1 - H = 1 := by omega
+  rw [e1, e2]
+  rfl
 
 /-! ### T2 `handler_total` -/
 
-/-- PARTIAL: no message makes a handler panic — provided a hash-based request names a hash the node
-    holds. What is missing: `GetBlockHashesMsg` with an unknown hash (`handler_total_false`). Premises on
-    the node: it has a genesis momentum and fewer than 2^45 momentums. -/
-theorem handler_total_partial (s : State) (m : Msg) (h1 : 1 ≤ s.H) (hH : s.H ≤ makesliceMax)
-    (wf : m.body.WF s.H) (hk : ∀ a, m.body ≠ .getHashes none a) :
+/-- no message makes a handler panic: every code, every size, every body — every amount and number, every
+    hash, held or not. Premises on the NODE only: it holds its genesis momentum (`chain.Init` guarantees it;
+    without one `CurrentBlock()` is nil) and its height is below 2^64 − 1 (at height 2^64 − 1 — reached after
+    5.8·10^12 years of one momentum per 10 s — `height + 1` wraps around to 0 in `GetMomentumsByHeight` and
+    `make([]*Momentum, 0, 0 − 1)` panics). Both are necessary: `handler_total_needs_genesis`,
+    `handler_total_needs_room`. -/
+theorem handler_total (s : State) (m : Msg) (h1 : 1 ≤ s.H) (hH : s.H + 1 < two64) :
     (handleMsg s m).2 ≠ .panic := by
-  have hcap : ∀ a, capHash a < two64 := by
+  have hcap : ∀ a, capHash a ≤ makesliceMax := by
     intro a
     have := capHash_le a
-    have : Gen.MaxHashFetch < two64 := by decide
+    have : Gen.MaxHashFetch ≤ makesliceMax := by decide
     omega
   unfold handleMsg
   split
   · simp
   · generalize kindOf m.code = k
-    revert wf hk
     generalize m.body = b
-    intro wf hk
     cases k <;> cases b <;> simp only [handleKind] <;> try simp
     · split <;> simp
     · next hash a =>
-      cases hash with
-      | none => exact absurd rfl (hk a)
+      unfold onGetHashes
+      cases hb : byHash s.H hash with
+      | none =>
+        have : hashesFromHash s.H hash (capHash a) = .ok [] := by
+          unfold hashesFromHash; rw [hb]
+        rw [this]; simp
       | some h =>
-        have hw : 1 ≤ h ∧ h ≤ s.H := wf h rfl
-        unfold onGetHashes
-        rw [hashesFromHash_some hw.1 hw.2 hH (hcap a)]
+        -- the hash is the one of our momentum at height h
+        have hh : hash = some h ∧ 1 ≤ h ∧ h ≤ s.H := by
+          unfold byHash at hb
+          cases hash with
+          | none => cases hb
+          | some h' =>
+            have := byHeight_eq_some (H := s.H) (h := h') (l := h) (by simpa using hb)
+            exact ⟨by rw [this.1], by omega, by omega⟩
+        rw [hh.1, hashesFromHash_some hh.2.1 hh.2.2 hH (hcap a)]
         simp
     · next hs bad =>
       simp only [onGetBlocks]
       split <;> simp
     · next n a =>
       unfold onGetHashesFromNumber
+      obtain ⟨p, hp, hp1, hp2, hp3⟩ := fromNumberLast_spec s.H n (capHash a) h1
+      rw [hp]
       simp only
-      have hp := fromNumberLast_spec s.H n (capHash a) h1 (hcap a)
-      generalize fromNumberLast s.H n (capHash a) = p at hp
       split
       · simp
-      · rw [hashesFromHash_some hp.1 hp.2.1 hH hp.2.2]
+      · rw [hashesFromHash_some hp1 hp2 hH (Nat.le_trans hp3 (hcap a))]
         simp
 
-/-- the negative witness for T2: a `GetBlockHashesMsg` naming a hash the node does not hold panics
-    (`GetMomentumsByHash` dereferences the nil momentum) — for every node and amount. -/
-theorem handler_total_false (s : State) (size amount : Nat) (hs : size ≤ Gen.ProtocolMaxMsgSize) :
-    (handleMsg s ⟨Gen.GetBlockHashesMsg, size, .getHashes none amount⟩).2 = .panic := by
+/-- the request that used to kill the node (F7a, repaired in d85e958): a `GetBlockHashesMsg` naming a hash
+    the node does not hold is answered with an empty `BlockHashesMsg` — on every node, for every amount —
+    and the session goes on. -/
+theorem unknown_hash_empty_reply (s : State) (size amount : Nat) (hs : size ≤ Gen.ProtocolMaxMsgSize) :
+    handleMsg s ⟨Gen.GetBlockHashesMsg, size, .getHashes none amount⟩ = (s, .hashes []) := by
   unfold handleMsg
   have : ¬ (size > Gen.ProtocolMaxMsgSize) := by omega
   simp only [this, if_false]
   have hk : kindOf Gen.GetBlockHashesMsg = .getHashes := by decide
   rw [hk]
   rfl
+
+/-- the first premise of `handler_total` cannot be dropped: a chain without any momentum (not a state a node
+    can be in) makes `last.Height` dereference the nil `CurrentBlock()`. -/
+theorem handler_total_needs_genesis :
+    (handleMsg { H := 0 } ⟨Gen.GetBlockHashesFromNumberMsg, 3, .getHashesFromNumber 0 0⟩).2 = .panic := by decide
+
+/-- the second premise cannot be dropped either: on a chain of 2^64 − 1 momentums a request for the
+    frontier's own hash panics (`height + 1` wraps around to 0: `make` with capacity 2^64 − 1). -/
+theorem handler_total_needs_room :
+    (handleMsg { H := two64 - 1 } ⟨Gen.GetBlockHashesMsg, 35, .getHashes (some (two64 - 1)) 1⟩).2 = .panic := by
+  decide
 
 /-! ### T3 `size_gate` -/
 
@@ -261,6 +270,21 @@ theorem size_gate_in_code :
     Gen.HandleMsgHashCapSites = 2 ∧
     Gen.HandleMsgBlockCapCond = "len(blocks) >= downloader.MaxBlockFetch" := by decide
 
+/-- generated facts about the two repaired places, as they stand in the working tree: every statement of
+    `handleMsg` that writes `request.Amount` is one of the two caps or the recomputation guarded by
+    `available < request.Amount` (so the amount is never enlarged after the cap — `fromNumberLast`), and
+    `GetMomentumsByHash` returns `nil, nil` for a nil momentum before it reads `momentum.Height`
+    (`hashesFromHash`, first case). -/
+theorem repaired_shape_in_code :
+    Gen.HandleMsgAmountWrites =
+      ["request.Amount > uint64(downloader.MaxHashFetch) => request.Amount = uint64(downloader.MaxHashFetch)",
+       "request.Amount > uint64(downloader.MaxHashFetch) => request.Amount = uint64(downloader.MaxHashFetch)",
+       "available := last.Height - request.Number + 1; available < request.Amount => request.Amount = available"] ∧
+    Gen.GetMomentumsByHashStmts =
+      ["momentum, err := ms.GetMomentumByHash(blockHash)", "if err != nil { return nil, err }",
+       "if momentum == nil { return nil, nil }",
+       "return ms.GetMomentumsByHeight(momentum.Height, higher, count)"] := by decide
+
 /-- the limits the statement names: 10 MiB per message, 512 hashes and 128 momentums per reply. -/
 theorem stated_limits :
     Gen.ProtocolMaxMsgSize = 10 * 1024 * 1024 ∧ Gen.MaxHashFetch = 512 ∧ Gen.MaxBlockFetch = 128 := by decide
@@ -293,9 +317,15 @@ example : onGetHashes 10 (some 7) 5 = .hashes [3, 4, 5, 6, 7] := by decide
 example : onGetHashesFromNumber 10 4 3 = .hashes [6, 5, 4] := by decide
 /-- beyond the frontier: truncated to what exists. -/
 example : onGetHashesFromNumber 10 9 600 = .hashes [10, 9] := by decide
-/-- the premises of `handler_total_partial` hold for an ordinary request -/
-example : (Body.getHashes (some 7) 5).WF 10 := by
-  intro h hh; cases hh; decide
+/-- the premises of `handler_total` hold for an ordinary node -/
+example : 1 ≤ (State.mk 10 0 0).H ∧ (State.mk 10 0 0).H + 1 < two64 := by decide
+/-- an unknown hash, and a hash "at a height" the node does not hold: empty replies -/
+example : onGetHashes 10 none 5 = .hashes [] ∧ onGetHashes 10 (some 11) 5 = .hashes [] := by decide
+/-- number above the frontier with a wrap-around in `last.Height − Number + 1`: nothing -/
+example : onGetHashesFromNumber 10 (two64 - 1) 2 = .hashes [] := by decide
+set_option maxRecDepth 16384 in
+/-- number 0 with a large amount: heights 1…511, frontier first, never more than the cap -/
+example : (onGetHashesFromNumber 600 0 (two64 - 1)).count = 511 := by decide
 /-- unknown hashes are skipped by GetBlocks, known ones returned -/
 example : onGetBlocks 10 [some 3, none, some 11, some 10] false = .blocks [3, 10] := by decide
 
